@@ -861,6 +861,22 @@ FAMILY = [
      "def cb(f: Callable[[int], Optional[str]], g: Union[int, str]) -> Callable[..., Any]:\n  return f",
      "table = {}",
      "def put(k, v):\n  table[k] = v"],
+    # error messages that print unions: several Literal types, classes, Optional, containers, a callable, nested unions —
+    # every printed union must come out in one order whatever the hash seed is
+    ["from typing import Callable, Literal, Optional, Union",
+     "class Red: pass\nclass Green: pass\nclass Blue: pass\nclass Cyan: pass",
+     "def lit(x: Literal['zeta', 'alpha', 'beta', 'gamma', 'delta', 'epsilon']): pass",
+     "def lit2(x: Union[Literal['one', 'two'], Literal[3, 4, 5], Literal[True], bytes, None]): pass",
+     "def cls(x: Union[Red, Green, Blue, Cyan, int, str, None]): pass",
+     "def cont(x: Union[list[Union[Red, Green, int]], dict[str, Union[Blue, Cyan, None]], tuple[Union[int, str, bytes], ...]]): pass",
+     "def fn(x: Callable[[Union[Red, Blue, int]], Optional[Union[Green, Cyan, str]]]): pass",
+     "lit(1); lit2(2.5); cls(2.5); cont(2.5); fn(2.5)",
+     "lit('nope'); lit2('three'); cls(b''); cont({1: 2.5}); fn([Red()])",
+     "v = [Red(), Green(), Blue(), 1, 's', None, b'b', 2.5][0]",
+     "v.nope",
+     "v + 1",
+     "w: Union[Literal['a', 'b', 'c'], Literal[1, 2]] = 'zzz'",
+     "def ret(c) -> Union[Literal['p', 'q', 'r'], Red, Green]:\n  return 2.5 if c else b''"],
 ]
 
 
